@@ -292,6 +292,7 @@ pub fn gen_case(prop: &str, thorough: bool, weak: bool, rng: &mut Rng) -> Case {
             }
         }
         "C11" if rng.below(3) == 0 => return gen_c11_readonly(rng, cfg, thorough),
+        "C11" | "C03" if rng.below(6) == 0 => return gen_cooldown_outlived(rng, cfg, thorough),
         "C07" | "C01" | "C03" if rng.below(4) == 0 => return gen_aba_storm(rng, cfg, thorough),
         "C07" | "C10" if rng.below(5) == 0 => return gen_guard_roundtrip(rng, cfg, thorough),
         "C10" | "C06" | "C02" if rng.below(8) == 0 => return gen_reentrant_destructors(rng, cfg, thorough),
@@ -709,6 +710,73 @@ fn gen_reentrant_destructors(rng: &mut Rng, mut cfg: RunCfg, thorough: bool) -> 
         threads.push(ThreadProg { ops, top: true });
     }
     cfg.p_fast_slot_refused = choose(rng, &[0, 0, 48]);
+    Case {
+        cfg,
+        prog: Program {
+            conts,
+            threads,
+            final_order: rng.below(16) as u8,
+        },
+    }
+}
+
+/// C11 / C03 (a cooldown outlived): fallback-only containers; short-lived reader threads are
+/// started one after another without waiting for each other, so that a starting thread can be
+/// in the middle of deciding that a released node's cooldown is over while that very node is
+/// claimed by a second thread, used, and released again with a writer (who has seen the second
+/// thread's generation) still inside it.
+fn gen_cooldown_outlived(rng: &mut Rng, mut cfg: RunCfg, thorough: bool) -> Case {
+    let kind = choose(rng, &[CKind::AF, CKind::OF, CKind::BF]);
+    let conts = vec![ContSpec { kind, init: Init::New }];
+    let mut threads = vec![ThreadProg::default()];
+    let mut main_ops = vec![Op::LoadDrop { c: 0 }];
+    // the first tenant: gives the node its first cooldown
+    threads.push(ThreadProg {
+        ops: vec![Op::LoadDrop { c: 0 }],
+        top: false,
+    });
+    main_ops.push(Op::Spawn { t: 1 });
+    main_ops.push(Op::Join { t: 1 });
+    // later tenants and checkers: one or two slow-path loads each, all started at once
+    let n = 2 + rng.below(if thorough { 3 } else { 2 }) as usize;
+    let mut ids = Vec::new();
+    for _ in 0..n {
+        let mut ops = Vec::new();
+        for _ in 0..(1 + rng.below(2)) {
+            ops.push(if rng.below(3) == 0 {
+                Op::LoadFull { c: 0, h: 0 }
+            } else {
+                Op::LoadDrop { c: 0 }
+            });
+        }
+        threads.push(ThreadProg { ops, top: false });
+        ids.push((threads.len() - 1) as u8);
+    }
+    // writers: they own nodes of their own (first operation) and then keep storing
+    for _ in 0..(1 + rng.below(2)) {
+        let mut ops = vec![Op::LoadDrop { c: 0 }];
+        for _ in 0..(2 + rng.below(3)) {
+            ops.push(Op::Store { c: 0, v: V::New });
+        }
+        threads.push(ThreadProg { ops, top: false });
+        ids.push((threads.len() - 1) as u8);
+    }
+    // start order is itself shuffled
+    for i in (1..ids.len()).rev() {
+        let j = rng.below(i as u64 + 1) as usize;
+        ids.swap(i, j);
+    }
+    for t in ids.iter() {
+        main_ops.push(Op::Spawn { t: *t });
+    }
+    for t in ids.iter() {
+        main_ops.push(Op::Join { t: *t });
+    }
+    threads[0].ops = main_ops;
+    cfg.p_stall_after_mark = choose(rng, &[80, 120, 160]);
+    cfg.p_stall_any = choose(rng, &[0, 6]);
+    cfg.p_switch_after_mark = choose(rng, &[0, 64]);
+    cfg.p_fast_slot_refused = 0;
     Case {
         cfg,
         prog: Program {
